@@ -548,3 +548,91 @@ def derive_atoms(guards) -> set:
                     changed = True
         pending = nxt
     return facts
+
+
+class Undecidable(Exception):
+    """A term outside the fragment `ceval` interprets."""
+
+
+_STR_METHODS = {
+    "lstrip", "rstrip", "strip", "startswith", "endswith", "isalnum", "isalpha", "isdigit", "isdecimal", "isnumeric", "isspace",
+    "isidentifier", "isascii", "islower", "isupper", "lower", "upper", "casefold", "find", "rfind", "count", "partition", "rpartition",
+    "split", "rsplit", "removeprefix", "removesuffix", "replace", "splitlines", "isprintable", "title", "swapcase", "index",
+}  # fmt: skip
+_PURE_BUILTINS = {"builtins.len": len, "builtins.bool": bool, "builtins.str": str, "builtins.ord": ord, "builtins.any": any, "builtins.all": all, "builtins.min": min, "builtins.max": max, "builtins.isinstance": isinstance}
+_CLASSES = {"builtins.str": str, "builtins.bytes": bytes, "builtins.int": int, "builtins.float": float, "builtins.tuple": tuple, "builtins.list": list}
+
+
+def ceval(term: Term, env: dict):
+    """Concrete value of a term built from text operations only (str methods without side effects, slicing, comparisons,
+    boolean connectives, len/ord/bool), under `env` (term -> value).  Raises Undecidable for anything else: the caller then
+    reports the construct as undecided instead of guessing.  Nothing of the analysed program is executed."""
+    if term in env:
+        return env[term]
+    op = term[0]
+    if op == "const":
+        return term[1]
+    if op in ("tuple", "list", "set"):
+        vals = [ceval(x, env) for x in term[1]]
+        return {"tuple": tuple, "list": list, "set": set}[op](vals)
+    if op == "not":
+        return not ceval(term[1], env)
+    if op == "boolop":
+        v = None
+        for x in term[2]:
+            v = ceval(x, env)
+            if (term[1] == "and" and not v) or (term[1] == "or" and v):
+                return v
+        return v
+    if op == "ifexp":
+        return ceval(term[2], env) if ceval(term[1], env) else ceval(term[3], env)
+    if op == "cmp":
+        a, b = ceval(term[2], env), ceval(term[3], env)
+        try:
+            return {
+                "==": lambda: a == b, "!=": lambda: a != b, "<": lambda: a < b, "<=": lambda: a <= b, ">": lambda: a > b, ">=": lambda: a >= b,
+                "is": lambda: a is b, "isnot": lambda: a is not b, "in": lambda: a in b, "notin": lambda: a not in b,
+            }[term[1]]()  # fmt: skip
+        except TypeError as e:
+            raise Undecidable(str(e)) from None
+    if op == "slice":
+        return slice(*(None if x is None else ceval(x, env) for x in term[1:4]))
+    if op == "sub":
+        base, idx = ceval(term[1], env), ceval(term[2], env)
+        if not isinstance(base, (str, tuple, list)):
+            raise Undecidable("subscript of a non-sequence")
+        try:
+            return base[idx]
+        except (IndexError, TypeError) as e:
+            raise Undecidable(str(e)) from None
+    if op == "unop" and term[1] in ("-", "+"):
+        v = ceval(term[2], env)
+        if isinstance(v, (int, float)) and not isinstance(v, bool):
+            return -v if term[1] == "-" else v
+    if op == "binop" and term[1] in ("+", "-"):
+        a, b = ceval(term[2], env), ceval(term[3], env)
+        if type(a) is type(b) and isinstance(a, (int, str)):
+            return a + b if term[1] == "+" else (a - b if isinstance(a, int) else None)
+    if op == "ref" and term[1] in _CLASSES:
+        return _CLASSES[term[1]]
+    if op == "call" and not any(k is None for k, _ in term[3]):
+        f = term[1]
+        if f[0] == "attr" and f[2] in _STR_METHODS:
+            recv = ceval(f[1], env)
+            if isinstance(recv, str):
+                args = [ceval(a, env) for a in term[2]]
+                kw = {k: ceval(v, env) for k, v in term[3]}
+                try:
+                    return getattr(recv, f[2])(*args, **kw)
+                except (TypeError, ValueError) as e:
+                    raise Undecidable(str(e)) from None
+        rn = refname(f)
+        if rn in _PURE_BUILTINS and not term[3]:
+            args = [ceval(a, env) for a in term[2]]
+            if rn in ("builtins.any", "builtins.all") and not (len(args) == 1 and isinstance(args[0], (tuple, list))):
+                raise Undecidable(rn)
+            try:
+                return _PURE_BUILTINS[rn](*args)
+            except (TypeError, ValueError) as e:
+                raise Undecidable(str(e)) from None
+    raise Undecidable(show(term)[:60])
